@@ -179,6 +179,8 @@ type Client interface {
 
 // client represents a MQTT client and implements the Client interface
 type client struct {
+	// connID identifies the connection in server.conns
+	connID       uint64
 	connectedAt  int64
 	server       *server
 	wg           sync.WaitGroup
@@ -830,6 +832,9 @@ func (client *client) internalClose() {
 	}
 	putBufioReader(client.bufr)
 	putBufioWriter(client.bufw)
+	client.server.mu.Lock()
+	delete(client.server.conns, client.connID)
+	client.server.mu.Unlock()
 	close(client.closed)
 
 }
